@@ -1,8 +1,334 @@
-//! engine `webs` (stub: to be filled in)
-use crate::util::Tr;
-use serde_json::{json, Value};
+//! C20: detection webs.  One execution = one diagram (Z/X spiders, phases 0/pi, plain edges,
+//! boundaries attached anywhere) on which `quizx::detection_webs::detection_webs` ran under three
+//! numberings of the SAME diagram: boundaries numbered first, last and interleaved with the
+//! spiders.  Logged per call: the diagram the call left behind (it is made bipartite in place),
+//! every returned web as the list of its non-identity edges, inputs/outputs afterwards.
+//! TLC (mc/Trace_Webs.tla) decides validity, independence, completeness (against the space the
+//! specification computes on the logged bipartite diagram), numbering independence, restoration
+//! of inputs/outputs and Den(bipartite form) = Den(original).
+//!
+//! `detection_webs` is only defined for `hash_graph::Graph` (its signature names the type), so the
+//! web events all carry be = "hash"; the trait method `make_bipartite` is additionally run on
+//! `vec_graph::Graph` (event `bip`).
+//!
+//!   --exhaustive K,B   every diagram with <= K spiders and 0..=B boundaries (Family enumeration)
+//!   --bb               additionally with one boundary-to-boundary wire
+//!   --stride n         keep every n-th enumerated diagram (offset = seed mod n)
+//!   --named            a fixed list of diagrams with non-trivial web spaces
+//!   --random N         seeded random diagrams, <= --maxsp (6) spiders, <= --maxb (3) boundaries
+//!   --maxbip M         skip/resample diagrams whose bipartite form has more than M spiders (12)
 
-#[allow(unused_variables)]
+use crate::absg::{abs, build};
+use crate::gens::{self, mk, Family, RandCfg, AV};
+use crate::util::{arg_flag, arg_num, arg_val, guarded, Tr};
+use quizx::detection_webs::{detection_webs, Pauli, PauliWeb};
+use quizx::graph::GraphLike;
+use serde_json::{json, Value};
+use std::collections::BTreeMap;
+
+fn ids(a: &Value, want_b: bool) -> Vec<u64> {
+    let mut v: Vec<u64> = a["v"]
+        .as_array()
+        .unwrap()
+        .iter()
+        .filter(|x| (x["ty"] == "B") == want_b)
+        .map(|x| x["id"].as_u64().unwrap())
+        .collect();
+    v.sort();
+    v
+}
+
+/// the same diagram with vertex `x` renamed to `m[x]`
+fn rename(a: &Value, m: &BTreeMap<u64, u64>) -> Value {
+    let f = |x: &Value| json!(m[&x.as_u64().unwrap()]);
+    let mut vs: Vec<Value> = a["v"]
+        .as_array()
+        .unwrap()
+        .iter()
+        .map(|v| {
+            let mut w = v.clone();
+            w["id"] = f(&v["id"]);
+            w
+        })
+        .collect();
+    vs.sort_by_key(|v| v["id"].as_u64().unwrap());
+    let mut es: Vec<(u64, u64, String)> = a["e"]
+        .as_array()
+        .unwrap()
+        .iter()
+        .map(|e| {
+            let (u, w) = (m[&e["u"].as_u64().unwrap()], m[&e["w"].as_u64().unwrap()]);
+            (u.min(w), u.max(w), e["t"].as_str().unwrap().to_string())
+        })
+        .collect();
+    es.sort();
+    let es: Vec<Value> = es.into_iter().map(|(u, w, t)| json!({"u": u, "w": w, "t": t})).collect();
+    let mut b = a.clone();
+    b["v"] = json!(vs);
+    b["e"] = json!(es);
+    b["ins"] = Value::Array(a["ins"].as_array().unwrap().iter().map(f).collect());
+    b["outs"] = Value::Array(a["outs"].as_array().unwrap().iter().map(f).collect());
+    b
+}
+
+/// the three numberings: boundaries first / last / interleaved (spider i -> 2i, boundary j -> 2j+1)
+fn numbering(a: &Value, how: &str) -> BTreeMap<u64, u64> {
+    let (sp, bs) = (ids(a, false), ids(a, true));
+    let (k, m) = (sp.len() as u64, bs.len() as u64);
+    let mut map = BTreeMap::new();
+    for (i, &s) in sp.iter().enumerate() {
+        let i = i as u64;
+        map.insert(s, match how { "first" => m + i, "last" => i, _ => 2 * i });
+    }
+    for (j, &b) in bs.iter().enumerate() {
+        let j = j as u64;
+        map.insert(b, match how { "first" => j, "last" => k + j, _ => 2 * j + 1 });
+    }
+    map
+}
+
+/// signature tags of the input (for known_findings.json)
+fn tags(a: &Value, how: &str) -> Vec<String> {
+    let (sp, bs) = (ids(a, false), ids(a, true));
+    let mut t = vec![format!("num={how}")];
+    if !bs.is_empty() && !sp.is_empty() && bs.iter().max() > sp.iter().min() {
+        t.push("boundaries_not_first".into());
+    }
+    let es = a["e"].as_array().unwrap();
+    let deg = |x: u64| es.iter().filter(|e| e["u"].as_u64() == Some(x) || e["w"].as_u64() == Some(x)).count();
+    if es.iter().any(|e| bs.contains(&e["u"].as_u64().unwrap()) && bs.contains(&e["w"].as_u64().unwrap())) {
+        t.push("bb_wire".into());
+    }
+    if sp.iter().any(|&s| deg(s) == 0) {
+        t.push("isolated_spider".into());
+    }
+    if bs.is_empty() {
+        t.push("no_boundary".into());
+    }
+    t
+}
+
+fn pauli_str(p: Pauli) -> &'static str {
+    match p {
+        Pauli::X => "X",
+        Pauli::Y => "Y",
+        Pauli::Z => "Z",
+    }
+}
+
+fn web_json(w: &PauliWeb) -> Value {
+    let mut es: Vec<(usize, usize, &str)> = w.edge_operators.iter().map(|(&(u, v), &p)| (u, v, pauli_str(p))).collect();
+    es.sort();
+    Value::Array(es.into_iter().map(|(u, v, p)| json!([u, v, p])).collect())
+}
+
+/// run detection_webs on `a` and describe the outcome (fields shared by `webs` and `renumber`)
+fn call(a: &Value) -> Value {
+    let mut g: quizx::hash_graph::Graph = build(a);
+    let r = guarded(|| detection_webs(&mut g));
+    match r {
+        Err(msg) => json!({"be": "hash", "res": "panic", "msg": msg, "count": -1}),
+        Ok(ws) => json!({"be": "hash", "res": "ok", "bip": abs(&g), "count": ws.len(),
+                          "webs": ws.iter().map(web_json).collect::<Vec<Value>>(),
+                          "ins": g.inputs(), "outs": g.outputs()}),
+    }
+}
+
+fn merge(mut base: Value, extra: Value) -> Value {
+    for (k, v) in extra.as_object().unwrap() {
+        base[k] = v.clone();
+    }
+    base
+}
+
+pub struct St {
+    pub diagrams: usize,
+    pub calls: usize,
+    pub webs: usize,
+    pub panics: usize,
+    pub with_webs: usize,
+}
+
+pub fn record_diagram(a0: &Value, tr: &mut Tr, st: &mut St) {
+    let nb = ids(a0, true).len();
+    let first = rename(a0, &numbering(a0, "first"));
+    tr.group();
+    st.diagrams += 1;
+    tr.emit(json!({"k": "reset", "pre": first}));
+    let note = |e: &Value, st: &mut St| {
+        st.calls += 1;
+        if e["res"] == "ok" {
+            let n = e["count"].as_u64().unwrap() as usize;
+            st.webs += n;
+            if n > 0 {
+                st.with_webs += 1;
+            }
+        } else {
+            st.panics += 1;
+        }
+    };
+    let e = merge(json!({"k": "webs", "num": "first", "tags": tags(&first, "first")}), call(&first));
+    note(&e, st);
+    tr.emit(e);
+    // the trait method on the other backend
+    {
+        let mut g: quizx::vec_graph::Graph = build(&first);
+        let ev = match guarded(|| g.make_bipartite()) {
+            Err(msg) => json!({"k": "bip", "be": "vec", "res": "panic", "msg": msg, "tags": tags(&first, "first")}),
+            Ok(()) => json!({"k": "bip", "be": "vec", "res": "ok", "bip": abs(&g), "tags": tags(&first, "first")}),
+        };
+        tr.emit(ev);
+    }
+    if nb == 0 {
+        return;
+    }
+    for how in ["last", "inter"] {
+        // the map is relative to the diagram of the reset line
+        let m = numbering(&first, how);
+        let a = rename(&first, &m);
+        let mp: Vec<Value> = m.iter().map(|(x, y)| json!([x, y])).collect();
+        let e = merge(json!({"k": "renumber", "num": how, "map": mp, "pre": a, "tags": tags(&a, how)}), call(&a));
+        note(&e, st);
+        tr.emit(e);
+    }
+}
+
+fn force_plain(a: &mut Value) {
+    for e in a["e"].as_array_mut().unwrap() {
+        e["t"] = json!("N");
+    }
+}
+
+fn all_plain(a: &Value) -> bool {
+    a["e"].as_array().unwrap().iter().all(|e| e["t"] == "N")
+}
+
+/// number of spiders of the bipartite form: spiders + edges between same-coloured spiders
+fn bip_size(a: &Value) -> usize {
+    let ty: BTreeMap<u64, String> = a["v"]
+        .as_array()
+        .unwrap()
+        .iter()
+        .map(|v| (v["id"].as_u64().unwrap(), v["ty"].as_str().unwrap().to_string()))
+        .collect();
+    let sp = ty.values().filter(|t| *t != "B").count();
+    let same = a["e"]
+        .as_array()
+        .unwrap()
+        .iter()
+        .filter(|e| {
+            let (u, w) = (&ty[&e["u"].as_u64().unwrap()], &ty[&e["w"].as_u64().unwrap()]);
+            u == w && u != "B"
+        })
+        .count();
+    sp + same
+}
+
+fn named() -> Vec<Value> {
+    let z = |id, ph| AV { id, ty: "Z", ph, vars: vec![] };
+    let x = |id, ph| AV { id, ty: "X", ph, vars: vec![] };
+    let b = |id| AV { id, ty: "B", ph: 0, vars: vec![] };
+    let one = [1, 0, 0, 0, 0];
+    let mut out = vec![];
+    // 4-cycle Z-X-Z-X, two boundaries on one Z spider / on the two Z spiders / on a Z and an X spider
+    let cyc = [(1, 2, "N"), (2, 3, "N"), (3, 4, "N"), (1, 4, "N")];
+    for (p, q) in [(1usize, 1usize), (1, 3), (1, 2), (2, 4)] {
+        let mut es = cyc.to_vec();
+        es.push((p, 5, "N"));
+        es.push((q, 6, "N"));
+        out.push(mk(&[z(1, 0), x(2, 0), z(3, 4), x(4, 0), b(5), b(6)], &es, &[5], &[6], one));
+    }
+    // the same cycle without boundaries and with one
+    out.push(mk(&[z(1, 0), x(2, 4), z(3, 0), x(4, 0)], &cyc, &[], &[], one));
+    {
+        let mut es = cyc.to_vec();
+        es.push((3, 5, "N"));
+        out.push(mk(&[z(1, 0), x(2, 0), z(3, 0), x(4, 4), b(5)], &es, &[], &[5], one));
+    }
+    // K_{2,3}: two Z spiders joined through three X spiders; boundaries on the Z spiders
+    {
+        let es = [(1, 3, "N"), (1, 4, "N"), (1, 5, "N"), (2, 3, "N"), (2, 4, "N"), (2, 5, "N"), (1, 6, "N"), (2, 7, "N")];
+        out.push(mk(&[z(1, 0), z(2, 0), x(3, 0), x(4, 4), x(5, 0), b(6), b(7)], &es, &[6], &[7], one));
+    }
+    // ZZ parity measurement on two wires repeated twice (all Z spiders: make_bipartite has work to do)
+    {
+        let es = [(1, 2, "N"), (3, 4, "N"), (1, 5, "N"), (3, 5, "N"), (2, 6, "N"), (4, 6, "N"),
+                  (1, 7, "N"), (3, 8, "N"), (2, 9, "N"), (4, 10, "N")];
+        out.push(mk(&[z(1, 0), z(2, 0), z(3, 0), z(4, 0), x(5, 0), x(6, 4), b(7), b(8), b(9), b(10)], &es, &[7, 8], &[9, 10], one));
+    }
+    // triangle of Z spiders, one boundary each
+    {
+        let es = [(1, 2, "N"), (2, 3, "N"), (1, 3, "N"), (1, 4, "N"), (2, 5, "N")];
+        out.push(mk(&[z(1, 0), z(2, 4), z(3, 0), b(4), b(5)], &es, &[4], &[5], one));
+    }
+    // two disjoint 4-cycles, a boundary on one of them
+    {
+        let es = [(1, 2, "N"), (2, 3, "N"), (3, 4, "N"), (1, 4, "N"), (5, 6, "N"), (6, 7, "N"), (7, 8, "N"), (5, 8, "N"), (6, 9, "N")];
+        out.push(mk(&[z(1, 0), x(2, 0), z(3, 0), x(4, 0), x(5, 0), z(6, 0), x(7, 4), z(8, 0), b(9)], &es, &[], &[9], one));
+    }
+    out
+}
+
 pub fn record(args: &[String], seed: u64, tr: &mut Tr) -> Value {
-    json!({"stub": true})
+    let mut st = St { diagrams: 0, calls: 0, webs: 0, panics: 0, with_webs: 0 };
+    let maxbip: usize = arg_num(args, "--maxbip", 12);
+    let stride: usize = arg_num(args, "--stride", 1usize).max(1);
+    let offset = seed as usize % stride;
+    let bb = arg_flag(args, "--bb");
+    let mut enumerated = 0usize;
+    if let Some(kb) = arg_val(args, "--exhaustive") {
+        let p: Vec<usize> = kb.split(',').map(|x| x.parse().expect("--exhaustive K,B")).collect();
+        let (kmax, bmax) = (p[0], p[1]);
+        let mut idx = 0usize;
+        for k in 0..=kmax {
+            let f = Family { k, tys: vec!["Z", "X"], phs: vec![0, 4], ets: vec!["N"], nb: bmax, vars: vec![], bb };
+            gens::enum_family(&f, |a| {
+                // the family attaches boundaries by N or H wires; the property is about plain edges
+                if !all_plain(&a) {
+                    return;
+                }
+                if idx % stride == offset && bip_size(&a) <= maxbip {
+                    record_diagram(&a, tr, &mut st);
+                    enumerated += 1;
+                }
+                idx += 1;
+            });
+        }
+    }
+    let mut nnamed = 0usize;
+    if arg_flag(args, "--named") {
+        for a in named() {
+            record_diagram(&a, tr, &mut st);
+            nnamed += 1;
+        }
+    }
+    let nrand: usize = arg_num(args, "--random", 0);
+    let mut resampled = 0usize;
+    if nrand > 0 {
+        let cfg = RandCfg {
+            min_sp: 1,
+            max_sp: arg_num(args, "--maxsp", 6),
+            max_b: arg_num(args, "--maxb", 3),
+            tys: vec!["Z", "X"],
+            phs: vec![0, 4],
+            ets: vec!["N"],
+            pedge: arg_num(args, "--pedge", 0.45),
+            scalars: false,
+            ..RandCfg::any_zx()
+        };
+        let mut r = gens::rng(seed);
+        let mut done = 0usize;
+        while done < nrand && resampled < 50 * nrand + 100 {
+            let mut a = gens::random_diagram(&mut r, &cfg);
+            force_plain(&mut a);
+            if bip_size(&a) > maxbip {
+                resampled += 1;
+                continue;
+            }
+            record_diagram(&a, tr, &mut st);
+            done += 1;
+        }
+    }
+    json!({"diagrams": st.diagrams, "enumerated": enumerated, "named": nnamed, "random": nrand, "resampled_too_big": resampled,
+           "calls": st.calls, "webs_returned": st.webs, "calls_with_webs": st.with_webs, "panics": st.panics})
 }
